@@ -656,6 +656,7 @@ static void do_tu_signed(CMR* cmr)
 /* ---------- C02: regularity ---------- */
 
 /* case: cfg M     record: ncfg cfg M rc verdict(0/1/2) */
+static __thread bool regular_echo_rest = false;
 static void do_regular(CMR* cmr)
 {
   read_cfg();
@@ -671,8 +672,17 @@ static void do_regular(CMR* cmr)
   o_chr_dense(M);
   oi(rc);
   oi(flag);
+  if (regular_echo_rest)
+    o_rest();       /* api regular_cert: orientation flag and the generator's graph witness, echoed for the judge */
   rec_end();
   CMRchrmatFree(cmr, &M);
+}
+
+static void do_regular_cert(CMR* cmr)
+{
+  regular_echo_rest = true;
+  do_regular(cmr);
+  regular_echo_rest = false;
 }
 
 /* ---------- C13: pivots ---------- */
@@ -2361,12 +2371,13 @@ static struct
   {"leaf", do_leaf},              /* 21 */
   {"reprt", do_reprt},            /* 22 */
   {"tu_net", do_tu_net},          /* 23 */
+  {"regular_cert", do_regular_cert}, /* 24 */
   {"tlimit", do_tlimit},
   {"hist", do_hist},
   {"threads", do_threads},
   {NULL, NULL}
 };
-#define NUM_SUB_APIS 24
+#define NUM_SUB_APIS 25
 
 /* ---------- running a handler with its record captured in memory ---------- */
 
